@@ -22,6 +22,58 @@ def _has_fp(txt):
 
 
 def _run_z3(txt, timeout_s, want_model):
+    """z3 through the Python API in a forked child with a HARD time limit (z3's own timeout is soft: nlsat and some
+    tactics ignore it)."""
+    import pickle
+    import select
+    import signal
+
+    t0 = time.time()
+    rfd, wfd = os.pipe()
+    pid = os.fork()
+    if pid == 0:
+        os.close(rfd)
+        try:
+            out = _run_z3_inproc(txt, timeout_s, want_model)
+        except BaseException as e:  # pragma: no cover
+            out = ("unknown", None, 0.0, f"z3 child error: {e!r}")
+        try:
+            with os.fdopen(wfd, "wb") as f:
+                pickle.dump(out, f)
+        finally:
+            os._exit(0)
+    os.close(wfd)
+    data = b""
+    deadline = t0 + timeout_s + 3
+    with os.fdopen(rfd, "rb") as f:
+        while True:
+            left = deadline - time.time()
+            if left <= 0:
+                break
+            r, _, _ = select.select([f], [], [], min(left, 1.0))
+            if r:
+                chunk = os.read(f.fileno(), 1 << 16)
+                if not chunk:
+                    break
+                data += chunk
+    try:
+        os.kill(pid, signal.SIGKILL)
+    except ProcessLookupError:
+        pass
+    try:
+        os.waitpid(pid, 0)
+    except ChildProcessError:
+        pass
+    if data:
+        try:
+            r, model, _, why = pickle.loads(data)
+            return r, model, time.time() - t0, why
+        except Exception:
+            pass
+    return "unknown", None, time.time() - t0, "hard timeout"
+
+
+def _run_z3_inproc(txt, timeout_s, want_model):
     t0 = time.time()
     s = z3.Solver()
     s.set("timeout", int(timeout_s * 1000))
